@@ -107,7 +107,9 @@ namespace {
     } else {
       // a < 2: |s'_i - s''_j|^(a-2) is singular wherever two transformed principal
       // stresses coincide (always the case for identical transformations)
-      a = c.real(2., 20., "a");
+      // 2 < a < 3: the second derivative is only Hoelder continuous (exponent a-2)
+      // where s'_i = s''_j, which generic transformations can meet anywhere
+      a = c.real(3., 20., "a");
     }
     // 0: both identity (== Hosford), 1: same random transformation twice, 2..: two random ones
     const auto tc = c.integer(0, 4, "transformation_class");
@@ -124,8 +126,9 @@ namespace {
     {
       // gaps of the transformed stresses as seen by the library (same test)
       const auto em = o.model(st.sig);
-      c.tag(em.gap * st.vm < 10 * st.seps ? "barlat.transformed.repeated"
-                                          : "barlat.transformed.distinct");
+      (void)em;
+      const bool rep = analysed(c1.apply(st.sig)).gmin == 0 || analysed(c2.apply(st.sig)).gmin == 0;
+      c.tag(rep ? "barlat.transformed.repeated" : "barlat.transformed.distinct");
     }
     if (integerType) {
       checkAll<N>(c, Barlat<int>{c1, c2, static_cast<int>(a)}, st, o);
@@ -140,14 +143,14 @@ namespace {
       const auto h = tfel::material::computeHosfordStressSecondDerivative(s, a, seps);
       const auto em = o.model(st.sig);
       const R E = 2 * a * em.E, En = 2 * a * em.En;
-      c.close(std::get<0>(b), std::get<0>(h), 128 * E * std::fabs(std::get<0>(h)),
+      c.close(std::get<0>(b), std::get<0>(h), 512 * E * std::fabs(std::get<0>(h)),
               "C22.barlat.identity_is_hosford", "Barlat(identity) vs Hosford: value");
       const M3 nh = toM<N>(S2<N>(std::get<1>(h)));
-      closeM(c, toM<N>(std::get<1>(b)), nh, 128 * En * (1 + ref::norm(nh)),
+      closeM(c, toM<N>(std::get<1>(b)), nh, 512 * En * (1 + ref::norm(nh)),
              "C22.barlat.identity_is_hosford", "Barlat(identity) vs Hosford: normal", N);
       const S4<N> dh(std::get<2>(h));
       constexpr int n = N == 1 ? 3 : (N == 2 ? 4 : 6);
-      const R t = 128 * En / std::min(R(1), em.gap) * (norm4<N>(dh) + 1 / st.vm);
+      const R t = 512 * En / std::min(R(1), em.gap) * (norm4<N>(dh) + 1 / st.vm);
       for (int i = 0; i < n; ++i)
         for (int j = 0; j < n; ++j)
           c.close(std::get<2>(b)(i, j), dh(i, j), t, "C22.barlat.identity_is_hosford_second",
